@@ -1614,12 +1614,14 @@ def evaluate(ctx, pool, cases, label_of):
                 first_case.setdefault(fresh_key(ev), ci)
     fresh_real = dict(zip(keys, pool.map(lambda k: fresh_run(pool, fresh_evs[k], 0), keys)))
     # ---- "in separate processes": the same fresh single run by the interpreters of every other hash-seed class
-    # (a big batch: ONE other class per invocation, chosen by its content — the invocations of a batch share their specs, every spec
-    # meets every class; a replay / a small batch: all of them)
+    # (a big batch: ONE other class per invocation, chosen by its content among the classes 2…: the first process segment of every
+    # history runs in class 1 and is compared with the class-0 run by the oracle below, so an invocation is generated by at least
+    # three interpreters with three hash seeds; the invocations of a batch share their specs, every spec meets every class.  A replay /
+    # a small batch: all classes)
     import zlib
     n_alt = len(HASH_SEEDS) - 1
     pairs = [(k, j) for k in keys
-             for j in (range(1, n_alt + 1) if len(keys) <= 40 else [1 + zlib.crc32(k.encode()) % n_alt])]
+             for j in (range(1, n_alt + 1) if len(keys) <= 40 else [2 + zlib.crc32(k.encode()) % (n_alt - 1)])]
     diffs = pool.map(lambda kj: process_diffs(fresh_real[kj[0]], fresh_run(pool, fresh_evs[kj[0]], kj[1])), pairs)
     seen = set()
     # (differences between two FIXED hash seeds are reported first: their replay is deterministic)
